@@ -7,6 +7,7 @@ Part 3: the `_run/_schedule_next/start/stop` machine (see `Machine.lean`).
 import TornadoModel.C39.Lemmas
 import TornadoModel.C39.Gen.Periodic
 import TornadoModel.C39.Machine
+import TornadoModel.C39.Spec
 namespace TornadoModel.C39
 
 /-! ## 1. translator tie -/
@@ -128,6 +129,42 @@ theorem iter_strictly_increasing (nows : List ℚ) : ∀ (s : PC), 0 < s.callbac
     rcases List.mem_cons.mp hx with rfl | hx
     · exact h1
     · exact lt_trans h1 ((List.pairwise_cons.mp this).1 x hx)
+
+/-! ## 2a. the constructor: numbers (milliseconds) and `datetime.timedelta` (microsecond resolution) -/
+
+/-- **any period of at least a microsecond is accepted and used exactly**: the constructor does not raise and stores
+the requested period (a timedelta of `us` microseconds becomes `us/1000` ms — not truncated to whole milliseconds) -/
+theorem ctor_accepts_any_period (p : Period) (h : 1 / 1000 ≤ p.requestedMs) : ctor p = some p.requestedMs := by
+  cases p with
+  | ms q =>
+    have hq : ¬ q ≤ 0 := by
+      simp only [Period.requestedMs] at h
+      intro hq
+      linarith
+    simp [ctor, Period.requestedMs, hq]
+  | td us => simp [ctor, Period.requestedMs]
+
+/-- the oracle's constructor clause holds of the model for every argument -/
+theorem ctor_spec (p : Period) : Spec.ctorViolations p (ctor p) = [] := by
+  unfold Spec.ctorViolations
+  split
+  · next h => rw [ctor_accepts_any_period p h]
+  · rfl
+
+/-- the whole trajectory of an object built by the constructor (number or timedelta, period ≥ 1 µs, no jitter) and
+started at `start`: strictly increasing and on the grid `start + k · period` of the **requested** period -/
+theorem ctor_on_grid (p : Period) (start : ℚ) (nows : List ℚ) (h : 1 / 1000 ≤ p.requestedMs) :
+    ∃ s, newPC p 0 start = some s ∧ (s.next :: iter s nows).Pairwise (· < ·) ∧
+      ∀ x ∈ iter s nows, ∃ k : ℤ, 0 < k ∧ x = start + k * (p.requestedMs / 1000) := by
+  have hpos : (0 : ℚ) < p.requestedMs := by linarith
+  refine ⟨⟨p.requestedMs, 0, start⟩, by simp [newPC, ctor_accepts_any_period p h], ?_, ?_⟩
+  · exact iter_strictly_increasing nows _ hpos rfl
+  · exact iter_on_grid nows ⟨p.requestedMs, 0, start⟩ start 0 hpos rfl (by simp)
+
+/-! non-vacuity: 2.5 ms and 1 µs given as timedeltas; zero milliseconds is rejected -/
+example : ctor (.td 2500) = some (5 / 2) := by simp [ctor]; norm_num
+example : (1 : ℚ) / 1000 ≤ (Period.td 1).requestedMs := by simp [Period.requestedMs]
+example : ctor (.ms 0) = none := by simp [ctor]
 
 /-! ## 2b. with jitter `|j| < 2`, `random.random() ∈ [0,1)` -/
 
